@@ -95,7 +95,15 @@ def main():
 
         # ---- C/D/E. rebuild, correspond, witnesses (inside the property module)
         common.use_repo_package()
-        mod.run(ctx)
+        try:
+            mod.run(ctx)
+        except (CheckBroken, common.EngineBuildError):
+            raise
+        except Exception:
+            # a crash of the harness after the real code already failed the property must not hide the failure
+            if not ctx.violations:
+                raise
+            ctx.notes.append("harness raised after recording a failing input: " + traceback.format_exc()[-600:])
         # ---- failing-input search when something is broken but no failing input is known yet
         if ctx.broken and not ctx.violations and hasattr(mod, "search"):
             mod.search(ctx)
